@@ -684,6 +684,13 @@ def gen_node_cfg(rng):
         elif r < 0.5:
             addr = None                       # bind(server, net)
         ads.append({"aid": i, "net": net, "addr": addr})
+    if k >= 2:
+        r = rng.random()
+        if r < 0.15:                          # a router bound the documented way: no addresses at all
+            for a in ads:
+                a["addr"] = None
+        elif r < 0.25:                        # mixed: first port without, others with
+            ads[0]["addr"] = None
     cache = []
     for a in ads:
         for _ in range(rng.choice([0, 0, 1, 2, 3])):
@@ -985,7 +992,8 @@ def gen_tree(rng, nn=None, shape="random"):
     for n in nets:
         for _ in range(rng.randrange(1, 4)):
             stations.append((n, newmac(n), rng.choice(["known", "known", "unknown", "addronly"])))
-    return {"nets": nets, "routers": routers, "stations": stations}
+    modes = [rng.choice(["all"] * 7 + ["none", "none", "first-none"]) for _ in routers]
+    return {"nets": nets, "routers": routers, "stations": stations, "router_modes": modes}
 
 
 def gen_ring(rng):
@@ -1062,7 +1070,13 @@ class World:
             self._mk(cfg, [(net, mac)])
             self.station_idx[(net, mac)] = len(self.nodes) - 1
         for ri, ports in enumerate(spec["routers"]):
-            ads = [{"aid": i, "net": n, "addr": m, "lan": n, "mac": m} for i, (n, m) in enumerate(ports)]
+            # how the router binds its ports: "all" = bind(node, net, address) for every port;
+            # "none" = the documented router way bind(node, net) WITHOUT addresses; "first-none" = mixed
+            mode = (spec.get("router_modes") or [])[ri:ri + 1]
+            mode = mode[0] if mode else "all"
+            ads = [{"aid": i, "net": n, "lan": n, "mac": m,
+                    "addr": None if (mode == "none" or (mode == "first-none" and i == 0)) else m}
+                   for i, (n, m) in enumerate(ports)]
             cfg = {"adapters": ads, "app": False, "cache": []}
             if tables is not None:
                 for i, (n, m) in enumerate(ports):
@@ -1453,7 +1467,11 @@ def run_tree_scenario(ctx, vt, sc, node_lockstep=True):
                     if world is not None and not do_replies(ctx, vt, world, spec, sc, dict(case, packet=[si, d, pl]), si, got):
                         world = None
             continue
-        topo = world.topo_request() if sc["cache_mode"] != "cold" or dest[0] in ("gb", "lb", "ls") else None
+        # the static-cache simulator only applies where the caches are complete: routers bound
+        # without addresses do not announce themselves at startup (discovery on demand instead)
+        partly = sc["cache_mode"] == "announce" and any(m != "all" for m in (spec.get("router_modes") or []))
+        topo = (world.topo_request()
+                if (sc["cache_mode"] != "cold" and not partly) or dest[0] in ("gb", "lb", "ls") else None)
         burst = bool(sc.get("burst")) and k % 2 == 1
         # the STATEFUL simulator (Route.runWorld) against the whole internetwork: any single packet,
         # whatever the state of the caches (cold, half warm in a history, configured)
@@ -1836,9 +1854,12 @@ def run_case_inner(ctx, vt, case):
 
 def fix_spec(spec):
     """JSON round trip turns tuples into lists"""
-    return {"nets": list(spec["nets"]),
-            "routers": [[(p[0], p[1]) for p in r] for r in spec["routers"]],
-            "stations": [(s[0], s[1], s[2]) for s in spec["stations"]]}
+    out = {"nets": list(spec["nets"]),
+           "routers": [[(p[0], p[1]) for p in r] for r in spec["routers"]],
+           "stations": [(s[0], s[1], s[2]) for s in spec["stations"]]}
+    if spec.get("router_modes"):
+        out["router_modes"] = list(spec["router_modes"])
+    return out
 
 
 def run_corpus(ctx, vt):
